@@ -57,6 +57,10 @@ CLAIMED = {
    text='TLC checks the heap model SFHeap (buffers, arrays with their own writeable flag, containers, caller-held references; construct through immutable_filter, caller writes, obtaining arrays, view / copy derivations) exhaustively for small constants against AllFrozen, NoChange, CallerIsolated and ObtainedFrozen, with FilterBug as negative control; TLC simulation behaviours are replayed on real NumPy arrays and containers over route tables (a write the model refuses must raise, a write it allows must stay invisible), and SFGo behaviours check that static objects derived from grow-only ones never change; the interface sweep calls every public name (incl. operators) of 12 fixtures with an argument table, deep-snapshots every fixture before and after and probes every array reachable from every result; TLC (Trace_Heap) checks NoChange / AllFrozen per recorded call.',
    ref='DESIGN.md section 4 (C01)', note='Trusted: NumPy flags.writeable / shares_memory semantics. Flipping flags.writeable on an owning array is a NumPy operation outside the claim. matmul is excluded from the sweep (NumPy 2.5 segfaults in np.unique on its path).',
    technique='TLA+ heap model SFHeap model checked with TLC; simulation behaviours replayed into the code; recorded interface sweep validated by a TLC trace spec'),
+ 'C05': dict(
+   text='TLC checks, for every tree-ordered label set of a small scope and every combination of per-level selectors, that the tree built with per-node offsets iterates to the table rows, that the label -> position walk through the tree (offset accumulation) is the table position, and that the transcribed breadth-first walk of IndexLevel.loc_to_iloc equals the declarative per-level selection and selects exactly the matching tuples (MC_C05); every enumerated selection is replayed through loc_to_iloc / ih.loc / Series / Frame; random trees of depth 2-4 built by 9 construction routes are observed through every view (iteration, 2-D values, per-depth values, length, depth, membership, lookups), random selections incl. innermost masks and grow-only histories (append / extend with cache-materialising reads in between) are recorded and validated by TLC (Trace_C05).',
+   ref='DESIGN.md section 4 (C05)', note='Outside the claim (as in the property): selectors matching nothing, outer-depth masks; additionally slice selectors with a bound absent under some parent and list selectors naming a label twice.',
+   technique='TLA+ spec SFHier (tree with offsets, BFS walk vs declarative selection) model checked with TLC; state dump replayed into the code; recorded views / selections / growth histories validated by a TLC trace spec'),
 }
 REASON_TODO = 'not yet built in this round: the specification module for this property is still being written (see DESIGN.md section 9)'
 ALL = ['C%02d' % i for i in range(1, 21)]
